@@ -64,6 +64,54 @@ const D: [u64; 16] = [
 ];
 const P: u64 = (1 << 31) - 1;
 
+/// The value (before the "0 becomes 2^31-1" rule) that the first initialisation step feeds back: an explicit function of (key, iv),
+/// because R1 = R2 = 0 there and W = X0.
+pub fn first_feedback(k: &[u8; 16], iv: &[u8; 16]) -> u64 {
+    let s: Vec<u64> = (0..16).map(|i| ((k[i] as u64) << 23) | (D[i] << 8) | iv[i] as u64).collect();
+    let x0 = ((((s[15] >> 15) << 16) | (s[14] & 0xffff)) & 0xffff_ffff) as u32;
+    let u = (x0 >> 1) as u64;
+    ((1u64 << 15) * s[15] + (1u64 << 17) * s[13] + (1u64 << 21) * s[10] + (1u64 << 20) * s[4] + (1 + (1u64 << 8)) * s[0] + u) % P
+}
+
+/// (key, iv) pairs equal to the base except in bytes 0 and 4 of the key and of the IV, whose first initialisation step feeds back a value
+/// congruent to `target` modulo 2^31-1 (meet in the middle over the two cells s0 and s4; about two solutions per target).
+pub fn craft_first_feedback(base_k: &[u8; 16], base_iv: &[u8; 16], target: u64) -> Vec<([u8; 16], [u8; 16])> {
+    use std::collections::HashMap;
+    let target = target % P;
+    let (mut k, mut iv) = (*base_k, *base_iv);
+    k[0] = 0;
+    k[4] = 0;
+    iv[0] = 0;
+    iv[4] = 0;
+    // contribution of everything except the variable parts of s0 and s4
+    let fixed = first_feedback(&k, &iv);
+    let c0 = |kb: u64, ib: u64| ((1 + (1u64 << 8)) * ((kb << 23) | ib)) % P;
+    let c4 = |kb: u64, ib: u64| ((1u64 << 20) * ((kb << 23) | ib)) % P;
+    let mut table: HashMap<u64, (u8, u8)> = HashMap::with_capacity(1 << 16);
+    for kb in 0..256u64 {
+        for ib in 0..256u64 {
+            table.entry(c0(kb, ib)).or_insert((kb as u8, ib as u8));
+        }
+    }
+    let mut out = Vec::new();
+    for kb in 0..256u64 {
+        for ib in 0..256u64 {
+            let need = (target + 2 * P - fixed - c4(kb, ib)) % P;
+            if let Some((k0, i0)) = table.get(&need) {
+                let (mut kk, mut ii) = (k, iv);
+                kk[0] = *k0;
+                ii[0] = *i0;
+                kk[4] = kb as u8;
+                ii[4] = ib as u8;
+                if first_feedback(&kk, &ii) == target {
+                    out.push((kk, ii));
+                }
+            }
+        }
+    }
+    out
+}
+
 pub struct Zuc {
     s: [u64; 16],
     r1: u32,
